@@ -1,6 +1,7 @@
 package c04
 
 import (
+	"crypto/sha256"
 	"encoding/hex"
 	"fmt"
 	"reflect"
@@ -72,9 +73,20 @@ func dump(sb *strings.Builder, v reflect.Value, depth int) {
 			return
 		}
 		if t.Elem().Kind() == reflect.Uint8 {
-			b := make([]byte, v.Len())
-			for i := range b {
-				b[i] = byte(v.Index(i).Uint())
+			var b []byte
+			if v.Kind() == reflect.Slice {
+				b = v.Bytes()
+			} else {
+				b = make([]byte, v.Len())
+				for i := range b {
+					b[i] = byte(v.Index(i).Uint())
+				}
+			}
+			if len(b) > 512 {
+				// long blobs by length and hash (same comparison, much cheaper)
+				sum := sha256.Sum256(b)
+				fmt.Fprintf(sb, "h'%s..'(%d bytes, sha256 %x)", hex.EncodeToString(b[:16]), len(b), sum[:])
+				return
 			}
 			sb.WriteString("h'")
 			sb.WriteString(hex.EncodeToString(b))
